@@ -356,4 +356,9 @@ def run(ctx):
     r1_reverse_lookup(ctx)
     r2_colours(ctx)
     r3_evaluator(ctx)
+    # the search decides 'no legal move' only on evidence (shared with C08.R3), and any attack set computed by
+    # shifting occupancies instead of the tables must not wrap around the board edge (shared with C01.R8)
+    from . import c08, c01
+    c08.r3_no_moves_flag(ctx)
+    c01.r8_hand_written_steps(ctx, "C05.R4")
     ctx.assumptions += ["the attack tables compute what C04 establishes (C04 must pass)", "both kings exist (legal positions)"]
